@@ -196,6 +196,15 @@ def run(chk):
     chk.ob("R02.3", "no-boundaries-accessor", not boundaries_fn_calls,
            "write_tokenized_text calls %s" % boundaries_fn_calls, site=C.site(bodies[0]))
 
+    # ------------------------------------------------------------------ R02.5: the iterator looks at nothing but the labels
+    chk.rule("R02.5", "TokenIterator::next reads no sentence state other than the boundary labels")
+    nb = C.body(w, C.TOKIT_NEXT)
+    used = {f for f in C.body_fields(nb) if f.startswith(C.S + ".")}
+    sent_calls = sorted({c for _, t_ in cfgmod.calls(nb) for c in [cfgmod.callee(t_) or ""] if c.startswith(C.S + "::")})
+    chk.ob("R02.5", "next:reads-only-boundaries", used <= {C.S + ".boundaries"} and set(sent_calls) <= {C.S + "::boundaries"},
+           "TokenIterator::next reads the sentence fields %s and calls %s; the tokens must be a function of the boundary labels alone "
+           "(a sentence with the same labels but another history - predicted, tagged, reused - must yield the same tokens)" % (sorted(used), sent_calls),
+           site=C.site(nb), sample={"fields": sorted(used), "calls": sent_calls})
     # ------------------------------------------------------------------ R02.4
     bi, iti, outs = C.run_fn(w, C.S + "::iter_tokens")
     chk.fn(bi.fn)
